@@ -5561,10 +5561,8 @@ class TensorDictBase(MutableMapping):
                 if v.device != storage.device:
                     v = v.to(storage.device, non_blocking=non_blocking)
                 stride = v.stride()
-                if is_compiling():
-                    if not v.is_contiguous():
-                        v = v.clone(memory_format=torch.contiguous_format)
-                elif (stride and stride[-1] != 1) or v.storage_offset():
+                if not v.is_contiguous() or (stride and stride[-1] != 1):
+                    # view(-1) needs a contiguous layout, view(torch.uint8) a last stride of 1
                     v = v.clone(memory_format=torch.contiguous_format)
                 v, pad = _view_and_pad(v)
                 items.append(v)
